@@ -87,6 +87,9 @@ def buck4(A, rho, C, r_detach, r_min, r_attach):
   :param r_attach: End of splined region.
 
   :return: Splined potential."""
+  if not (r_detach < r_min < r_attach):
+    raise ValueError("buck4 requires r_detach < r_min < r_attach, found r_detach = {}, r_min = {}, r_attach = {}".format(r_detach, r_min, r_attach))
+
   bm = bornmayer(A,rho)
   disp = buck(0.0, 1.0, C)
 
